@@ -159,6 +159,47 @@ pub fn check_c03(ctx: &Ctx) -> i32 {
     });
     tally.merge(t2);
 
+    // tick-level jitter: every step sequence over {1, 2, 3, 5} ticks (scaled by 1 and by 600) of
+    // up to JMAX steps, for video (write_video) and audio; catches table builders that summarise
+    // (run-length, "constant rate" shortcuts) instead of recording each delta
+    let jmax = if ctx.thorough { 7 } else { 5 };
+    let jsteps = [1u64, 2, 3, 5];
+    let mut jitems = vec![];
+    for scale in [1u64, 600] {
+        for audio in [false, true] {
+            for seq in sequences(jsteps.len(), jmax) {
+                if seq.len() >= 2 {
+                    jitems.push((scale, audio, seq));
+                }
+            }
+        }
+    }
+    let n_jitter = jitems.len();
+    let tj = par_items(&jitems, ctx.seed, |idx, (scale, audio, seq), t| {
+        let cfg = Cfg::basic(VCodec::H264, if *audio { Some(ACodec::Opus) } else { None }, idx % 2 == 0);
+        let mut ops = vec![];
+        let start = 90_000u64; // 1 s, exact ticks
+        let mut tk = start;
+        let at = |ticks: u64| ticks as f64 / 90000.0;
+        if *audio {
+            let (k, _) = video_frame(VCodec::H264, true, true, 1, 4);
+            ops.push(Op::WV { pts: T(at(start)), data: Bytes::new(k), key: true });
+        }
+        for i in 0..=seq.len() {
+            if i > 0 {
+                tk += jsteps[seq[i - 1]] * scale;
+            }
+            if *audio {
+                ops.push(Op::WA { pts: T(at(tk)), data: Bytes::new(audio_frame(ACodec::Opus, i as u32, 4).0) });
+            } else {
+                let (d, _) = video_frame(VCodec::H264, i == 0, i == 0, i as u32 + 1, 4);
+                ops.push(Op::WV { pts: T(at(tk)), data: Bytes::new(d), key: i == 0 });
+            }
+        }
+        judge_history(FileProp::C03, &cfg, &ops, (3_000_000 + idx as u64, 0), t);
+    });
+    tally.merge(tj);
+
     // long deterministic traces for the no-drift clause (single executions, not samples of a space)
     let long_n = if ctx.thorough { 100_000 } else { 20_000 };
     let mut long = vec![];
@@ -216,7 +257,7 @@ pub fn check_c03(ctx: &Ctx) -> i32 {
         Meta {
             level: "model_checking",
             rule: format!(
-                "every video DTS sequence of <= {vmax} frames over the step alphabet {{1/30, 1001/30000, 1001/24000, 1 tick, 0.4 tick, 7.3 s, 2^31 ticks}} from starts {{0, 0.5, 36000 s}}, via write_video and via write_video_with_dts with every composition-offset vector over {{0, -2/30 s, +1/30 s, +1001/24000 s (off the tick grid)}} plus an overflowing offset at each single position, on H.264 and VP9 ({n_video_items} sequence items); every audio PTS sequence of <= {amax} frames over steps {{0, 1024/48000, 1024/44100, 0.02}} x start lead {{0, 0.01}} x {{AAC, Opus}} ({n_audio_items} items); rejected writes are kept in the history and the oracle is applied to the accepted subsequence; plus two long single traces ({long_n} video frames at 29.97/23.976 fps with {} AAC frames at 44.1 kHz) for the no-drift clause. Oracle: stts deltas = differences of exactly rounded absolute timestamps, last-sample rule, ctts presence/values, mdhd duration = sum, no drift at any sample. Distinct by (result vector, output bytes).",
+                "every video DTS sequence of <= {vmax} frames over the step alphabet {{1/30, 1001/30000, 1001/24000, 1 tick, 0.4 tick, 7.3 s, 2^31 ticks}} from starts {{0, 0.5, 36000 s}}, via write_video and via write_video_with_dts with every composition-offset vector over {{0, -2/30 s, +1/30 s, +1001/24000 s (off the tick grid)}} plus an overflowing offset at each single position, on H.264 and VP9 ({n_video_items} sequence items); every audio PTS sequence of <= {amax} frames over steps {{0, 1024/48000, 1024/44100, 0.02}} x start lead {{0, 0.01}} x {{AAC, Opus}} ({n_audio_items} items); rejected writes are kept in the history and the oracle is applied to the accepted subsequence; tick-level jitter: every step sequence of 2..{jmax} steps over {{1, 2, 3, 5}} ticks x scale {{1, 600}} for video and for audio ({n_jitter} items); plus two long single traces ({long_n} video frames at 29.97/23.976 fps with {} AAC frames at 44.1 kHz) for the no-drift clause. Oracle: stts deltas = differences of exactly rounded absolute timestamps, last-sample rule, ctts presence/values, mdhd duration = sum, no drift at any sample. Distinct by (result vector, output bytes).",
                 2 * long_n
             ),
             bound: format!("video <= {vmax} frames, audio <= {amax} frames; long traces are single deterministic executions"),
